@@ -9,10 +9,13 @@ import time
 import inspect
 import ast
 import z3
-from . import core
+import os
+from . import core, second
 from .core import I, R, B, dense, Exec, Heap, Dict, Set, Arr, SV, SLV, PyConst, Unsupported
 
 TIMEOUT_MS = 20000
+SECOND = os.environ.get('VERIF_SECOND_SOLVER', '1') != '0' and os.path.exists(second.CVC5)    # cvc5 re-checks every unsat
+SECOND_TIMEOUT_MS = 20000
 
 
 class Univ:
@@ -280,11 +283,29 @@ def verify(func, spec, name, source=None, timeout_ms=TIMEOUT_MS):
     allowed = spec['raises_allowed'](p)
     feasible_returns = 0
 
+    def second_opinion(s, r):
+        """cvc5 on the same assertions (engine/vcg/second.py): confirms z3's `unsat`, decides z3's `unknown`.  A `sat` from
+        cvc5 against z3's `unsat` leaves the obligation undecided (never discharged on one solver's word against the other)."""
+        if not SECOND or r == z3.sat: return r
+        ans, dt = second.cvc5_check(s.assertions(), SECOND_TIMEOUT_MS)
+        res['second_s'] = res.get('second_s', 0.0) + dt
+        sec = res.setdefault('second', {})
+        if r == z3.unsat:
+            key = {'unsat': 'confirmed', 'sat': 'disagreed'}.get(ans, 'z3_only:' + ans.split(':')[0])
+            sec[key] = sec.get(key, 0) + 1
+            return z3.unknown if ans == 'sat' else r
+        if ans == 'unsat':
+            sec['decided_by_cvc5'] = sec.get('decided_by_cvc5', 0) + 1
+            return z3.unsat
+        sec['open_in_both'] = sec.get('open_in_both', 0) + 1
+        return r
+
     def check(hyps, goal):
         s = z3.Solver(); s.set('timeout', timeout_ms)
         for h in hyps: s.add(h)
         s.add(z3.Not(goal))
         t1 = time.time(); r = s.check(); res['solver_s'] += time.time() - t1
+        r = second_opinion(s, r)
         m = None
         if r == z3.sat:
             m = s.model()
@@ -304,7 +325,7 @@ def verify(func, spec, name, source=None, timeout_ms=TIMEOUT_MS):
         s = z3.Solver(); s.set('timeout', timeout_ms)
         for h in hyps: s.add(h)
         t1 = time.time(); r = s.check(); res['solver_s'] += time.time() - t1
-        return r
+        return second_opinion(s, r)
 
     for n_out, out in enumerate(outs):
         # instantiation terms: the arbitrary index, 0, and witnesses introduced on the path
